@@ -54,6 +54,16 @@ func TestMain(m *testing.M) {
 			"(identity multihash iff inlining is on and the marshalled key has <= 42 bytes, else sha2-256) and match its own key; and BOTH IDs of the key - the one a peer with inlining on derives and the one a peer with inlining off derives, each received "+
 			"through a drawn serialized form (binary / base58 / CID text in four bases / JSON / AddrInfo JSON) - must round-trip in every form and give the key back exactly when they embed it (identity multihash of the marshalled key), whatever the local setting; "+
 			"TestPeerIDMutation mutates the serialized forms of either ID under either setting. Labels inlining:on / inlining:off, inlining:off+remote-id-embeds-key (TestPeerID) and inlining:off/id-embeds-key (TestPeerIDMutation) count the class. "+
+			"LIVE RECORD OBJECTS (TestSealedRecordIdentity, reseal_test.go): envelopes used as record.Seal returns them (never serialized first) while the sealer keeps using the record value it passed in: a peer record (5 of 8), voucher, "+
+			"a registered harness record or a vrec is sealed 1-3 times, with the same or (1 in 4) another key, and after every Seal 0-3 drawn modifications are made to the SAME object (Seq +1 / set, Addrs replaced / appended / one element overwritten in place / shrunk, "+
+			"PeerID := the signer / the next signer / another key, voucher fields, vrec tag (changes its Domain()) / body); Record() is read before the modifications for half of the envelopes. Every envelope must keep reporting the content its signature covers "+
+			"(a snapshot of the field values the harness took at Seal): RawPayload unchanged, Record() = TypedRecord(fresh) = independent decode of RawPayload = snapshot, the marshalled envelope accepted under the seal-time domain with the snapshot content, and both address books "+
+			"fed the envelope OBJECT accept it iff the snapshot (signed) peer ID is the ID of the signing key, then serve the snapshot addresses for that peer and nothing for the ID the record value names now. NON-TRIVIAL = the record value differs from the first sealed one at the end. "+
+			"TYPED CONSUME (typed_test.go): every typed receiver of every envelope test / fuzz target hands ConsumeTypedEnvelope a destination record that already holds content (hrec, PeerRecord, ReservationVoucher) and a refused envelope must leave it untouched "+
+			"(voucher: unless the refused payload is authentic, its UnmarshalRecord fills field by field). TestTypedConsume adds vrec, a registered record type whose Domain() is a function of its decoded content (payload = length-prefixed format tag + body, domain = c08-vrec/<tag>): "+
+			"1-3 envelopes (vrecs; foreign record types sealed under a vrec domain whose payload names the same / another tag / is no vrec payload; vrec payloads under a foreign domain; related by key and body), 1-8 candidates each: untouched under its own tag, untouched but the destination names "+
+			"ANOTHER tag (near misses, the tag of another sealed envelope, the tag the payload names), payload re-tagged to the tag asked for with the signature kept, and every operator of TestEnvelopeMutation; destination pre-filled with nothing / a sentinel / the body of a sealed record. "+
+			"The domain asked for is the destination's Domain() computed by the harness BEFORE the call: accepted => (key, payload type, payload, that domain) is a sealed tuple and the destination and Record() hold the sealed payload's decode; refused => destination unchanged. NON-TRIVIAL there = anything but untouched bytes asked under the tag they were sealed under. "+
 			"Oracle: round trips; independent peer ID definition; metamorphic acceptance rule (accepted => decoded (signer key, payload type, payload) and the requested "+
 			"domain are exactly a sealed tuple; for peerstores additionally record.PeerID == ID of the signing key). "+
 			"One evaluation = one candidate input judged by every applicable receiver (ConsumeTypedEnvelope with a record of the requested domain, ConsumeEnvelope, typed PeerRecord / ReservationVoucher receivers, both address books). NON-TRIVIAL = the candidate is mutated / foreign / colliding / mismatched (not the plain round trip). "+
